@@ -39,7 +39,8 @@ def parseCmd (c : String) : Option Cmd :=
   | some 'X' => arg.toNat?.map .X
   | some 'x' => arg.toNat?.map .x
   | some 'C' => arg.toNat?.map .C
-  | some 'W' => arg.toNat?.map .W
+  -- (`W<j>:<ms>`: the lab watches Shutdown j for that long before it calls it blocked; the model has no clock)
+  | some 'W' => ((arg.splitOn ":").headD "").toNat?.map .W
   | some 'e' => arg.toNat?.map .e
   | some 'f' => match arg.splitOn ":" with
       | [c, "nontemp"] => c.toNat?.map (.f · .nonTemporary)
